@@ -402,7 +402,8 @@ func (g *gen) lineS(isOption bool) *LineS {
 			"[b]bold[/b]", "[wave a=1 s=\"q r\"]w[/wave] x", "[nomarkup][x] raw [/b][/nomarkup]", "[nomarkup]n[/] tail",
 			"[select value=b a=\"A\" b=\"B\" /]", "[plural value=2 one=\"cat\" other=\"% cats\" /]", "[ordinal value=3 one=\"%st\" two=\"%nd\" few=\"%rd\" other=\"%th\" /]",
 			"\\[esc\\]", "[a/] after", "[em]é日本[/em]", "[a][b]nested[/b][/a]", "[c trimwhitespace=false /] kept", "[x]open to the end",
-		}[g.tp.Int(0, 12, "markupkind")]
+			"[plural value=3 one=\"a\" two=\"b\" other=\"c\" /]", "[ordinal value=2 one=\"x\" few=\"y\" other=\"z\" /]", "[ordinal value=23 one=\"%st\" two=\"%nd\" few=\"%rd\" other=\"%th\" /]",
+		}[g.tp.Int(0, 15, "markupkind")]
 	}
 	if g.outlier == "longline" && !g.cfg.NoLongLines && g.tp.Chance(30, "longline") {
 		// one line of several KB, its byte length near a power of two or well beyond: buffers have sizes
